@@ -28,6 +28,9 @@ def run(tier, acc):
     res, cs = cc.drive(acc, "ladder", 10 if tier == "quick" else 100, 2, "ladder", CLEAN)
     acc.violations += cc.records("C01", res, cs, {"bad"})
     cc.exhaustive(acc, "C01", tier, CLEAN)
+    # guarded repeated subexpressions (CseGuards.tla vectors): the source returns a value where an unsound lift fails
+    from props import C02
+    C02.cse_guards(acc, tier, prop="C01", builds=CLEAN, take=300 if tier == "quick" else 6000)
     acc.nontrivial += sum(v for k, v in acc.counts.items() if k.endswith("_ok"))
 
 
